@@ -7,22 +7,22 @@ props = [json.loads(l) for l in open(os.path.join(V, "properties.jsonl"))]
 na = json.load(open(os.path.join(V, "obl", "not_applicable.json")))
 TEXT = {
  "C01": ("Bounded symbolic verification of src/sm2_sign.c: sign/verify algebra as an iff over a small-field instantiation, exact 256-bit range logic, strict DER on all inputs <= 12/20 bytes, ID binding, inductive nonce-store step.", "M4 small-field group model, ideal SM3; EC arithmetic below the stubs is C13's subject"),
- "C02": ("Bounded symbolic verification of sm2_do_decrypt (accept => GB/T 32918.4 conditions) and the SM2Cipher DER codec; encryption obligations are thorough-tier only; ECDH not covered.", "M4 group model, ideal SM3 under the real sm2_kdf"),
+ "C02": ("Bounded symbolic verification of sm2_do_decrypt (accept => GB/T 32918.4 conditions) and the SM2Cipher DER codec; encryption obligations are thorough-tier only; ECDH agreement and peer-share validation (uncompressed shares) over the small group model.", "M4 group model, ideal SM3 under the real sm2_kdf"),
  "C03": ("Padding/length logic of all six hashes from an arbitrary context state (exact), chunking for short messages, HMAC/KDF/PBKDF2/HKDF structure over an ideal hash/PRF. Compression functions are NOT compared with their standards.", "compression function = block recorder; SM3 = collision-free recorder"),
- "C04": ("CBC/CTR/CTR32/CFB/OFB of sm4_*.c against SP 800-38A references over an ideal block cipher (uninterpreted permutation), streaming and in-place variants, dry-run sizes. Primitives themselves not verified.", "sm4_encrypt as UF with inverse axioms; ENABLE_SMALL_FOOTPRINT block loops"),
+ "C04": ("CBC/CTR/CTR32/CFB/OFB of sm4_*.c against SP 800-38A references over an ideal block cipher (uninterpreted permutation), streaming and in-place variants, dry-run sizes (CFB also from an arbitrary context state). Primitives themselves not verified.", "sm4_encrypt as UF with inverse axioms; ENABLE_SMALL_FOOTPRINT block loops"),
  "C05": ("GCM (one-shot, streaming), CCM, CTR+HMAC: acceptance <=> full-length tag equality over exactly the authenticated data (ideal MAC probes), GHASH chain with uninterpreted multiplication. One known finding (IV not MACed in composite modes).", "ideal MAC / PRF assumption; bit-flip rejection holds modulo that assumption"),
  "C06": ("CBMC memory checks on exact-size objects for the listed decoders, record reception with arbitrary short reads, capacity obligations with scaled constants. Large parts of the input surface (X.509/CMS deep parsing, handshake byte streams) are outside.", "bounded input sizes (10-20 bytes for byte parsers), scaled TLS constants"),
  "C07": ("Real chain-walk and profile-check code over abstract certificates: accept <=> reference predicate for chains of 1..4(5) certificates, all attribute combinations.", "certificate parsing and signature primitive abstracted to arbitrary per-certificate facts"),
- "C08": ("Per-endpoint building blocks only: PRF / TLS1.3 label structure, record round trips, full-size fragment acceptance, in-order reassembly. Nothing about two live endpoints.", "ideal PRF; handshake drivers not encodable"),
+ "C08": ("Per-endpoint building blocks only: PRF / TLS1.3 label structure, record round trips, full-size fragment acceptance, in-order reassembly, and the inductive step of tls_send / tls_recv / tls_shutdown on one endpoint (any write / read chunking). Nothing about two live endpoints or the handshake drivers.", "ideal PRF; handshake drivers not encodable"),
  "C11": ("Record protection of TLCP/TLS1.2/TLS1.3: round trip, MAC/AEAD input coverage, padding, sequence-number binding, malformed lengths, over ideal CBC/MAC/AEAD layers; seq increment exact.", "ideal CBC table, ideal MAC probe, ideal AEAD; payloads <= 17/11 bytes quick"),
  "C12": ("Decision logic of point/scalar importers at full width with the curve equation as a recording oracle; key-share and private-key container paths.", "curve equation and decompression not verified"),
  "C13": ("Limb layer exact at full width; Montgomery reduction step of modp/modn mont_mul exact at full width with the 256x256 multiplier as an oracle; Jacobian point formulas over a small prime field against the affine group law; scalar-multiplication routes thorough-only. The 256-bit multiplier itself is not decided.", "small-field transfer argument (polynomial identities of degree <= 12 < 13); multiplier oracle"),
  "C14": ("Round trip / dry-run / canonicity of ASN.1 primitives (several exact), OID and SEQUENCE OF capacity, validators, time strings (1970-1980, 1999-2000, 2049-2051 quick; full range thorough), hex, PEM capacity, base64 streaming for every input and text cut point.", "bounded content sizes; base64 streaming with one representative content per length (symbolic contents give no verdict)"),
  "C15": ("CRL lookup = membership; x509_signed_verify acceptance conditions; extension encoder length consistency around DER length boundaries.", "ideal signature verifier; abstract entries"),
- "C16": ("Three theorems of cms.c: signed-data verification (>= 1 SignerInfo, all verified over H(header || content)), signing side (digest input = DER of the emitted ContentInfo for every content type, SignerInfo i made with signer i's key), recipient matching.", "abstract DER parts; 2 signers, 5-byte content"),
+ "C16": ("Six theorems: signed-data and signed-and-enveloped verification (>= 1 SignerInfo, all verified over H(header || content)), signing side (digest input = DER of the emitted ContentInfo, SignerInfo i made with signer i's key), recipient matching, recipient scan of enveloped / signed-and-enveloped data (any recipient position), certificate lookup by exact issuer and serial.", "abstract DER parts; 2 signers, 5-byte content"),
  "C17": ("SM9 256-bit limb / Fp add-sub layer exact; real Fp2/Fp4/Fp12 and G1/G2 point formulas over small prime fields against their definitions (Fp4, Fp12, G2 over a generic base ring); real sign/verify, KEM, key exchange and key extraction over an ideal bilinear group with random-oracle hashes, incl. retry paths; MAC-then-decrypt control flow. Pairing bilinearity, Frobenius constants, 256-bit multiplier not decided.", "small fields F_5/F_7/F_13; ideal bilinear group of order 13; at most one retry"),
  "C18": ("Entropy-driven outputs and fail-closed behaviour for six randomised operations with a symbolic failing draw, plus the SM9 operations (sign, KEM, exchange steps 1A/1B) over the ideal bilinear group: ephemeral values are the entropy draws, failure at any draw is reported.", "rand_bytes / rand_range model; heavy arithmetic opaque or ideal"),
- "C19": ("No dumping helper reachable in four secret-handling operations on any path (diagnostic monitor). Handshake drivers (which do print secrets) not covered.", "error_print* macros reduced to no-ops (they print file/line only)"),
+ "C19": ("No dumping helper reachable in seven secret-handling operations on any path (diagnostic monitor), incl. tls_send / tls_recv / tls_shutdown from any connection state. Handshake drivers (which do print secrets) not covered.", "error_print* macros reduced to no-ops (they print file/line only)"),
  "C20": ("Reduction: inventory of writable statics (auxiliary, syntactic) + operations meeting their specification from arbitrary static state (--nondet-static). Interleavings not explored.", "no schedule exploration"),
 }
 checks = []
